@@ -786,6 +786,16 @@ impl TransactionBuilder {
                 "Total collateral value cannot contain assets!",
             ));
         }
+        // asset subtraction clamps at zero, so a return carrying more (or other) assets than the
+        // collateral inputs would otherwise go unnoticed
+        if let Some(return_assets) = &collateral_return.amount.multiasset {
+            let input_assets = col_input_value.multiasset.clone().unwrap_or(MultiAsset::new());
+            if return_assets.sub(&input_assets).len() > 0 {
+                return Err(JsError::from_str(
+                    "Collateral return cannot contain assets that are not in the collateral inputs!",
+                ));
+            }
+        }
 
         let min_ada = min_ada_for_output(&collateral_return, &self.config.utxo_cost())?;
         if min_ada > collateral_return.amount.coin {
